@@ -245,12 +245,65 @@ fn chunk_strategy(p: &GenParams) -> BoxedStrategy<Vec<Op>> {
             o
         })
         .boxed();
+    // versions of one key retained by a snapshot and cut across two files of one level; then the
+    // snapshot goes away (release or reopen), the key is deleted and a partial range is compacted
+    // (boundary files of compaction inputs, tombstone dropping)
+    let reopens = p.w.reopen > 0;
+    let boundary = (
+        prop::collection::vec(sel(), 4),
+        (prop::collection::vec(121u32..400, 2..7), prop::bool::weighted(0.8)),
+        (2u8..12, 40u32..250),
+        (any::<bool>(), cfg_strategy()),
+        (any::<bool>(), prop::option::weighted(0.3, sel()), 0u8..3),
+        prop::collection::vec(v(), 2),
+    )
+        .prop_map(move |(mut ks, (pile, del), (n, flen), (reopen, cfg), (manual, hi, extra), small)| {
+            // the universe is sorted and selectors map monotonically, so a <= b <= c <= u as keys
+            ks.sort();
+            let (a, b, c, u) = (ks[0], ks[1], ks[2], ks[3]);
+            let mut o = vec![];
+            if snaps {
+                o.push(Op::Snap);
+            }
+            o.push(Op::Fill { start: a, n, val: Val { len: flen, compressible: false } });
+            for len in pile {
+                o.push(Op::Put(u, Val { len, compressible: false }));
+            }
+            if del {
+                o.push(Op::Delete(u));
+            }
+            o.push(Op::Compact(None, None));
+            if reopen && reopens {
+                o.push(Op::Reopen(cfg));
+            } else if snaps {
+                o.push(Op::Release(u16::MAX));
+            }
+            // two (or more) small files above the level that now holds the pile, below u
+            o.push(Op::Put(b, small[0]));
+            o.push(Op::Flush);
+            o.push(Op::Put(c, small[1]));
+            o.push(Op::Flush);
+            for _ in 0..extra {
+                o.push(Op::Put(a, small[0]));
+                o.push(Op::Flush);
+            }
+            if manual {
+                o.push(Op::Compact(Some(c), hi));
+            } else {
+                o.push(Op::Hammer(c, 120));
+                o.push(Op::WaitIdle);
+            }
+            o.push(Op::Get(u));
+            o
+        })
+        .boxed();
     prop_oneof![
         10 => random,
         2 => ladder,
         2 => pile,
         2 => disjoint,
         2 => straddle,
+        2 => boundary,
     ]
     .boxed()
 }
